@@ -50,7 +50,8 @@ Repeats == { [k |-> "loop", var |-> "n", max |-> m,
 Atoms == Rows \cup Lets \cup Repeats \cup {[k |-> "reset"]}
 Loops == {[var |-> "i", max |-> m] : m \in {Neg(N(1)), N(0), N(2), Id("a")}}
            \cup {[var |-> "a", max |-> N(2)]}
-Whiles == {Bin("<", Id("a"), N(2)), Bin("<", Id("i"), N(1)), N(0)}
+\* (a - 2 is negative, zero or positive: the loop runs as long as the condition is NON-ZERO)
+Whiles == {Bin("<", Id("a"), N(2)), Bin("<", Id("i"), N(1)), N(0), Bin("-", Id("a"), N(2))}
 
 \* a `let` must not assign the counter of the loop whose frame it runs in (DESIGN 6.1)
 RECURSIVE NoCounterLet(_, _)
